@@ -166,6 +166,12 @@ def personalise(model_settings_plan, df, kind, algo, plan, *, schedule="sequenti
     d = None
     if ip is not None:
         d = {pid: {k: np.atleast_1d(np.asarray(v, dtype=np.float64)) for k, v in ip[pid].items()} for pid in ip._indices}
+    # the run's observable outcome enters the event log (what the determinism self-test compares across interpreters / hash seeds)
+    h = hashlib.sha256()
+    for pid in (d or {}):
+        for k in sorted(d[pid]):
+            h.update(f"{pid}.{k}:".encode() + np.ascontiguousarray(d[pid][k]).tobytes())
+    world.log.add("personalised", algo, schedule, "pool" if real_pool else "sim", len(world.chain), type(exc).__name__ if exc else "-", h.hexdigest()[:16])
     return d, world, exc
 
 
@@ -225,7 +231,7 @@ def run_plan(plan: dict) -> dict:
 
     if rel == "peer_change":
         df2 = peer_changed(df, plan, target, kind)
-        twin, wt, et = personalise(None, df2, kind, algo, plan, C=C)
+        twin, wt, et = personalise(None, df2, kind, algo, plan, C=C, log=log)
         if et is not None:
             out["discarded"] = f"twin_raised:{type(et).__name__}"
             return _finish(out, plan, log)
@@ -242,7 +248,7 @@ def run_plan(plan: dict) -> dict:
         if workload.kind_info(kind)["event"]:
             out["discarded"] = "joint_single_individual_cohort_not_loadable"
             return _finish(out, plan, log)
-        twin, wt, et = personalise(None, df1, kind, algo, plan, C=C)
+        twin, wt, et = personalise(None, df1, kind, algo, plan, C=C, log=log)
         if et is not None:
             out["discarded"] = f"twin_raised:{type(et).__name__}"
             return _finish(out, plan, log)
@@ -266,7 +272,7 @@ def run_plan(plan: dict) -> dict:
         if perm == ids:
             perm = ids[::-1]
         df2 = pd.concat([df[df["ID"] == pid] for pid in perm]).reset_index(drop=True)
-        twin, wt, et = personalise(None, df2, kind, algo, plan, C=C)
+        twin, wt, et = personalise(None, df2, kind, algo, plan, C=C, log=log)
         if et is not None:
             out["discarded"] = f"twin_raised:{type(et).__name__}"
             return _finish(out, plan, log)
@@ -291,10 +297,12 @@ def run_plan(plan: dict) -> dict:
             if wbase.chain and not out["violations"]:
                 ta = sum(float(c["attach"].sum()) for c in wbase.chain)
                 tb = sum(float(c["attach"].sum()) for c in wt.chain)
-                if not np.isclose(ta, tb, rtol=1e-6, atol=1e-6):
+                # float32 terms of either sign: the tolerance follows the summed magnitudes, not the (possibly cancelling) total
+                mag = sum(float(c["attach"].abs().sum()) for c in wbase.chain)
+                if abs(ta - tb) > 1e-6 + 1e-5 * mag:
                     violation(out, "equivariance", "totals_change_with_order", f"{where}: {ta!r} vs {tb!r}")
     elif rel == "schedule":
-        twin, wt, et = personalise(None, df, kind, algo, plan, schedule=plan["schedule"], workers=plan["workers"], n_jobs=plan["n_jobs"], C=C)
+        twin, wt, et = personalise(None, df, kind, algo, plan, schedule=plan["schedule"], workers=plan["workers"], n_jobs=plan["n_jobs"], C=C, log=log)
         if et is not None:
             violation(out, "workers", f"raised_under_schedule:{plan['schedule']}:{type(et).__name__}", f"{where}: {type(et).__name__}: {str(et)[:200]}")
             return _finish(out, plan, log)
@@ -318,10 +326,10 @@ def run_plan(plan: dict) -> dict:
         try:
             from joblib.externals.loky import get_reusable_executor
 
-            seq, _, e0 = personalise(None, df, kind, algo, plan, n_jobs=1, real_pool=True, C=C)
+            seq, _, e0 = personalise(None, df, kind, algo, plan, n_jobs=1, real_pool=True, C=C, log=log)
             os.environ["PYTHONHASHSEED"] = str(plan["hashseed"])
             get_reusable_executor(kill_workers=True).shutdown(wait=True)
-            par, _, e1 = personalise(None, df, kind, algo, plan, n_jobs=min(plan["n_jobs"], 3), real_pool=True, C=C)
+            par, _, e1 = personalise(None, df, kind, algo, plan, n_jobs=min(plan["n_jobs"], 3), real_pool=True, C=C, log=log)
             get_reusable_executor(kill_workers=True).shutdown(wait=True)
         finally:
             if old is None:
